@@ -27,6 +27,13 @@ def ref_dictionary():
 
 
 def classes():
+    import importlib, pkgutil
+    import bromelia.lib as lib
+    for m in pkgutil.iter_modules(lib.__path__):      # some AVP modules are only imported by the command modules
+        try:
+            importlib.import_module(f"bromelia.lib.{m.name}.messages")
+        except BaseException:                          # noqa
+            pass
     seen, out = set(), []
     for c in DiameterAVP.__subclasses__():
         if id(c) not in seen:
@@ -37,7 +44,13 @@ def classes():
 
 def by_name(name):
     # the live class currently bound to that name in bromelia.avps (what users import)
-    return getattr(bromelia.avps, name)
+    c = getattr(bromelia.avps, name, None)
+    if c is None:
+        for k in classes():
+            if k.__name__ == name:
+                return k
+        raise KeyError(name)
+    return c
 
 
 def type_of(cls):
@@ -161,12 +174,20 @@ def build(cls, lv, L=3, depth=0, max_depth=4, opt=False, intpath=True):
     return cls(v), ref
 
 
+_OWN_FLAGS = {}
+
+
 def ref_for(cls, ref_data, flags=None):
     code, vendor, dflags, _ = expected(cls)
     if flags is None:
         flags = dflags
-    if flags is None:           # class unknown to the frozen dictionary: derive V from vendor, M unknown -> use instance
-        flags = 0x80 if vendor is not None else 0
+    if flags is None:
+        # class unknown to the frozen dictionary (added after design time): no published flags to compare with,
+        # so take the class's own default flags from a concrete instance (V must still agree with the vendor)
+        if cls not in _OWN_FLAGS:
+            inst, _ = build(cls, Leaves())
+            _OWN_FLAGS[cls] = inst.get_flags()
+        flags = _OWN_FLAGS[cls]
     return ref_avp(code, flags, vendor, ref_data)
 
 
